@@ -341,14 +341,107 @@ theorem lookupIdx_height (name : Bytes) : ∀ (fs : List (Bytes × Ty)) (j i : N
 
 theorem valueOfN_plain (enc : Enc) (f : Nat) (ty : Ty) (h : Ty.isPlainScalar ty = true) (o : Op) (l : Leaf) :
     valueOfN enc (f + 1) ty o (.leaf l) = valueOfScalar enc ty l.bytes := by
-  cases ty <;> simp_all [Ty.isPlainScalar, valueOfN]
+  cases ty <;> simp_all [Ty.isPlainScalar, valueOfN, anyVal, valueOfScalar]
 
 theorem valueOfN_plain_hdr (enc : Enc) (f : Nat) (ty : Ty) (h : Ty.isPlainScalar ty = true) (o : Op) (n : Bytes) (b : Node) :
     valueOfN enc (f + 1) ty o (.hdr n b) = valueOfScalar enc ty n := by
-  cases ty <;> simp_all [Ty.isPlainScalar, valueOfN]
+  cases ty <;> simp_all [Ty.isPlainScalar, valueOfN, anyVal, valueOfScalar]
 
 theorem plain_isScalar (ty : Ty) (h : Ty.isPlainScalar ty = true) : Ty.isScalarTy ty = true ∧ Ty.wrapDepth ty = 0 := by
   cases ty <;> simp_all [Ty.isPlainScalar, Ty.isScalarTy, Ty.wrapDepth]
+
+/-! ### `any` on scalars and arrays -/
+
+theorem anyVals_expand (enc : Enc) : ∀ (vs : List Node), anyVals enc vs = seqVals (anyVal enc) (expandNodes vs)
+  | [] => rfl
+  | .leaf l :: r => by simp only [anyVals, expandNodes, seqVals, anyVals_expand enc r]
+  | .obj fs :: r => by simp only [anyVals, expandNodes, seqVals, anyVals_expand enc r]
+  | .arr vs :: r => by simp only [anyVals, expandNodes, seqVals, anyVals_expand enc r]
+  | .hdr n b :: r => by
+      simp only [anyVals, expandNodes, seqVals, anyVal, anyVals_expand enc r]
+      cases anyVal enc b with
+      | error e => rfl
+      | ok x => cases seqVals (anyVal enc) (expandNodes r) <;> rfl
+
+theorem anyOks_expand : ∀ (vs : List Node), anyOks vs = true → ∀ v, v ∈ expandNodes vs → v.anyOk = true
+  | [], _, v, hm => by simp [expandNodes] at hm
+  | .leaf l :: r, h, v, hm => by
+      simp only [anyOks, Bool.and_eq_true] at h
+      simp only [expandNodes, List.mem_cons] at hm
+      rcases hm with rfl | hm
+      · exact h.1
+      · exact anyOks_expand r h.2 v hm
+  | .obj fs :: r, h, v, hm => by simp [anyOks, Node.anyOk] at h
+  | .arr vs :: r, h, v, hm => by
+      simp only [anyOks, Bool.and_eq_true] at h
+      simp only [expandNodes, List.mem_cons] at hm
+      rcases hm with rfl | hm
+      · exact h.1
+      · exact anyOks_expand r h.2 v hm
+  | .hdr n b :: r, h, v, hm => by
+      simp only [anyOks, Bool.and_eq_true] at h
+      simp only [expandNodes, List.mem_cons] at hm
+      rcases hm with rfl | rfl | hm
+      · rfl
+      · exact h.1
+      · exact anyOks_expand r h.2 v hm
+
+theorem lexNode_le_of_mem : ∀ (vs : List Node) (v : Node), v ∈ vs → (lexNode v).length ≤ (lexNodes vs).length
+  | [], v, hm => by simp at hm
+  | v0 :: r, v, hm => by
+      simp only [List.mem_cons] at hm
+      simp only [lexNodes, List.length_append]
+      rcases hm with rfl | hm
+      · omega
+      · have := lexNode_le_of_mem r v hm; omega
+
+/-- `AnyVisitor` on the stream path over a scalar / an array of scalars and arrays: the tree of the
+values; the fuel only has to cover the tokens of the value -/
+theorem sAny_node (enc : Enc) : ∀ (n : Nat) (v : Node) (rest : List RTok),
+    v.anyOk = true → v.wf = true → (lexNode v).length ≤ n →
+    sAny enc n (nodeHead v) (nodeTail v ++ rest) = (anyVal enc v).map (fun x => (x, rest)) := by
+  intro n
+  induction n with
+  | zero => intro v rest _ _ h; have := lexNode_len v; omega
+  | succ n ih =>
+    intro v rest hok hwf hn
+    cases v with
+    | leaf l =>
+      obtain ⟨bytes, q⟩ := l
+      cases q <;> simp [nodeHead, nodeTail, Leaf.rtok, sAny, anyVal, Except.map]
+    | obj fs => simp [Node.anyOk] at hok
+    | hdr h b => simp [Node.anyOk] at hok
+    | arr vs =>
+      simp only [Node.anyOk] at hok
+      have hwn : wfNodes vs = true := by simpa [Node.wf] using hwf
+      have hl := lexNodes_len (expandNodes vs)
+      have hex := lexNodes_expand vs
+      have hlen : (lexNodes vs).length + 2 ≤ n + 1 := by simpa [lexNode] using hn
+      have := sSeqFold_nodes (sAny enc n) (anyVal enc) rest (expandNodes vs)
+        ((lexNodes vs ++ [RTok.close] ++ rest).length + 1) (by rw [hex] at hl; simp; omega)
+        (fun v hm => (expand_mem vs hwn v hm).2)
+        (fun v hm rest' => ih v rest' (anyOks_expand vs hok v hm) (expand_mem vs hwn v hm).1
+          (by have := lexNode_le_of_mem _ v hm; rw [hex] at this; omega))
+      simp only [nodeHead, nodeTail, sAny, anyVal]
+      rw [hex] at this
+      simp only [List.append_assoc, List.singleton_append] at this ⊢
+      rw [this, anyVals_expand]
+      cases seqVals (anyVal enc) (expandNodes vs) <;> simp [Except.map]
+
+theorem typedLeaf_cases (ty : Ty) (h : Ty.isTypedLeaf ty = true) :
+    ty = .bool ∨ ty = .i64 ∨ ty = .u64 ∨ ty = .i32 ∨ ty = .u32 ∨ ty = .f64 ∨ ty = .f32 ∨ ty = .str := by
+  cases ty <;> simp_all [Ty.isTypedLeaf]
+
+/-- a typed scalar / string requested for a container: `invalid type` on the stream path and in the spec -/
+theorem sde_leaf_on_open (enc : Enc) (f : Nat) (ty : Ty) (h : Ty.isTypedLeaf ty = true) (o : Op) (toks : List RTok) :
+    sde enc (f + 1) ty .open_ o toks = .error .type := by
+  rcases typedLeaf_cases ty h with rfl | rfl | rfl | rfl | rfl | rfl | rfl | rfl <;>
+    simp [sde, sLeaf, sStr, RTok.asScalar, Except.map]
+
+theorem valueOfN_leaf_on_cont (enc : Enc) (f : Nat) (ty : Ty) (h : Ty.isTypedLeaf ty = true) (o : Op) (v : Node)
+    (hv : (∃ dfs, v = .obj dfs) ∨ (∃ vs, v = .arr vs)) : valueOfN enc (f + 1) ty o v = .error .type := by
+  rcases hv with ⟨dfs, rfl⟩ | ⟨vs, rfl⟩ <;>
+    rcases typedLeaf_cases ty h with rfl | rfl | rfl | rfl | rfl | rfl | rfl | rfl <;> simp [valueOfN]
 
 /-- stream path on the tokens of one value: the spec's value; exactly the value's tokens are
 consumed, except that the body of a header value stays in the stream (`nodeLeft`) -/
@@ -421,6 +514,34 @@ theorem sde_node (enc : Enc) : ∀ (f : Nat) (ty : Ty) (o : Op) (v : Node) (rest
       | error e => simp [Except.map]
       | ok seen => simp only [Except.map]; cases structFinish fs 0 seen <;> simp
 
+    | @anyArr vs hok =>
+      have hlex : (lexNode (Node.arr vs)).length ≤ ((nodeTail (Node.arr vs)) ++ rest).length + 2 := by
+        simp [lexNode, nodeTail]
+      simp only [sde]
+      exact sAny_node enc _ (.arr vs) rest (by simpa [Node.anyOk] using hok) hwf hlex
+    | @emptyMap t =>
+      simp only [nodeHead, nodeTail, lexNodes, List.nil_append, List.cons_append, sde, valueOfN]
+      rw [sMapFold_end false _ _ _ (.close :: rest) rest [] (Or.inl rfl)]
+      simp [Except.map]
+    | @emptySt fs =>
+      simp only [nodeHead, nodeTail, lexNodes, List.nil_append, List.cons_append, sde, valueOfN]
+      rw [sMapFold_end false _ _ _ (.close :: rest) rest [] (Or.inl rfl)]
+      cases h : structFinish fs 0 [] <;> simp [Except.map, h]
+    | @leafOnObj ty dfs hty =>
+      rw [valueOfN_leaf_on_cont enc f ty hty o _ (Or.inl ⟨dfs, rfl⟩)]
+      simp only [nodeHead]
+      rw [sde_leaf_on_open enc f ty hty]; rfl
+    | @leafOnArr ty vs hty =>
+      rw [valueOfN_leaf_on_cont enc f ty hty o _ (Or.inr ⟨vs, rfl⟩)]
+      simp only [nodeHead]
+      rw [sde_leaf_on_open enc f ty hty]; rfl
+    | @mapOnLeaf t l =>
+      obtain ⟨bytes, q⟩ := l
+      cases q <;> simp [nodeHead, nodeTail, Leaf.rtok, sde, valueOfN, Except.map]
+    | @stOnLeaf fs l =>
+      obtain ⟨bytes, q⟩ := l
+      cases q <;> simp [nodeHead, nodeTail, Leaf.rtok, sde, valueOfN, Except.map]
+
 /-- the stream path on the reader tokens of a document yields the document's value -/
 theorem deStream_eq_valueOf (enc : Enc) (ty : Ty) (d : Doc) (hroot : Ty.isRoot ty = true)
     (hwf : wfFields d = true) (hfit : Fits enc ty (.obj d)) :
@@ -430,6 +551,7 @@ theorem deStream_eq_valueOf (enc : Enc) (ty : Ty) (d : Doc) (hroot : Ty.isRoot t
   | ign => simp [deStream, valueOf]
   | @opt t _ h => simp [deStream, valueOf]
   | @prop t _ h => simp [Ty.isRoot] at hroot
+  | leafOnObj hty => cases ty <;> simp [Ty.isRoot, Ty.isTypedLeaf] at hroot hty
   | @map t _ hall =>
     have := sMapFold_map enc t (Ty.height (.map t)) true [] [] (Or.inr ⟨rfl, rfl, rfl⟩) d []
       ((lexemes d).length + 1) (by simp [lexemes]; omega) hwf
